@@ -315,6 +315,14 @@ def countDocuments (n : Nat) (skip : Int) (limit : CountLimit) : R Int :=
 
 /-! ### `$skip`, `$limit`, pipelines of `$sort/$skip/$limit` -/
 
+/-- the count `_handle_skip_stage` / `_handle_limit_stage` read from their argument: a float that
+    `is_integer()` is first turned into `int(options)`; a bool or anything else that is no `int`
+    is then refused (`none`) -/
+def stageCount : Val → Option Int
+  | .int n => some n
+  | .dbl m e => if m % (2 ^ e : Int) = 0 then some (m / (2 ^ e : Int)) else none
+  | _ => none
+
 inductive Stage where
   | sort (spec : SortSpec)
   | skip (n : Int)          -- `_handle_skip_stage`: a negative count is an OperationFailure
